@@ -162,7 +162,20 @@ type vf46Reader struct {
 	pendingBody int // outstanding bytes of a body requested as a whole, 0 if none
 	lostFraming bool
 	valveFired  int
+
+	// Source failure (transport fault): when failOn is set the reader delivers the first
+	// failAt bytes of the stream (chunked as the mode says) and from then on every call
+	// fails with errVf46Transport, a real I/O error that is NOT io.EOF (dropped connection,
+	// pipe closed with an error, bad sector).  The error is sticky, as for a broken
+	// connection.  failWithData delivers the last bytes before the fault together with
+	// the error in one call (legal: "n > 0 bytes ... before considering the error").
+	failOn       bool
+	failAt       int
+	failWithData bool
+	faults       int // calls answered with errVf46Transport
 }
+
+var errVf46Transport = errors.New("vf46 reader: connection reset by peer (injected source failure)")
 
 var errVf46Valve = errors.New("vf46 reader: consumer lost the record framing, stream aborted to protect the machine")
 
@@ -170,6 +183,10 @@ func (r *vf46Reader) Read(p []byte) (int, error) {
 	r.calls++
 	if len(p) == 0 {
 		return 0, nil
+	}
+	if r.failOn && r.pos >= r.failAt {
+		r.faults++
+		return 0, errVf46Transport
 	}
 	rest := len(r.data) - r.pos
 	if rest == 0 {
@@ -216,11 +233,18 @@ func (r *vf46Reader) Read(p []byte) (int, error) {
 	if n > rest {
 		n = rest
 	}
+	if r.failOn && n > r.failAt-r.pos {
+		n = r.failAt - r.pos
+	}
 	if n < len(p) && n < rest {
 		r.shorts++
 	}
 	copy(p, r.data[r.pos:r.pos+n])
 	r.pos += n
+	if r.failOn && r.failWithData && r.pos == r.failAt {
+		r.faults++
+		return n, errVf46Transport
+	}
 	if r.mode == "dataerr" && r.pos == len(r.data) {
 		// the contract allows returning the final bytes together with io.EOF
 		return n, io.EOF
@@ -246,6 +270,11 @@ type vf46Case struct {
 	OpTarget  string `json:"mode_change_target,omitempty"`
 	OpAtWrite int    `json:"mode_change_at_write,omitempty"`
 	OpOutcome string `json:"mode_change_outcome,omitempty"`
+	// second restore of the same stream from a source that breaks with a non-EOF error
+	FaultKind     string `json:"source_failure_at,omitempty"`
+	FaultOffset   int    `json:"source_failure_offset,omitempty"`
+	FaultRecsDone int    `json:"source_failure_after_complete_records,omitempty"`
+	FaultWithData bool   `json:"source_failure_with_last_bytes,omitempty"`
 }
 
 // ---- dump sink with an "operator" who asks for a mode change while the dump is streamed ----
@@ -345,6 +374,7 @@ func vf46InsideWriteCache() bool {
 type vf46Outcome struct {
 	symptom string
 	what    string
+	rerr    error // what Restore returned
 }
 
 // vf46Restore feeds stream to Restore of a fresh shard through the given reader and judges
@@ -371,7 +401,7 @@ func vf46Restore(r *verifkit.Run, dir string, rng *rand.Rand, dstWC bool, stream
 	var count, failed int
 	var rerr error
 	if r.Guard(desc, func() { count, failed, rerr = dst.sh.Restore(rd, ignoreErrors) }) {
-		return &vf46Outcome{"panic", "Restore panicked"}, nil
+		return &vf46Outcome{"panic", "Restore panicked", nil}, nil
 	}
 	r.Count("restore_calls", 1)
 	r.Count("reader_calls", rd.calls)
@@ -381,12 +411,28 @@ func vf46Restore(r *verifkit.Run, dir string, rng *rand.Rand, dstWC bool, stream
 	var out *vf46Outcome
 	set := func(sym, what string) {
 		if out == nil {
-			out = &vf46Outcome{sym, what}
+			out = &vf46Outcome{sym, what, rerr}
+		}
+	}
+
+	// The source itself broke (non-EOF read error delivered to Restore): the statement does
+	// not say what a restore from a broken source returns, so an ERROR is accepted whatever
+	// it is.  A nil error, however, claims "the dump was restored" and is judged against the
+	// whole dump exactly like any other successful restore (all checks below).
+	sourceFailed := rd.faults > 0
+	if sourceFailed {
+		r.Count("restores_from_failing_source", 1)
+		if rerr == nil {
+			r.Count("restores_from_failing_source_returned_nil", 1)
+		} else {
+			r.Count("restores_from_failing_source_returned_error", 1)
 		}
 	}
 
 	mustComplete := nBad == 0 || ignoreErrors
 	switch {
+	case sourceFailed && rerr != nil:
+		// accepted, see above
 	case mustComplete && rerr != nil:
 		set("error-on-restorable-stream", fmt.Sprintf("Restore returned error %q (count=%d failed=%d) although every record is intact or skippable (valid=%d bad=%d ignoreErrors=%v)", rerr, count, failed, nValid, nBad, ignoreErrors))
 	case !mustComplete && rerr == nil:
@@ -501,7 +547,7 @@ func vf46SizeClass(n int) string {
 func TestVerif_C46(t *testing.T) {
 	r := verifkit.Start(t, "C46", "exploration")
 	defer r.Finish()
-	r.SetRule("case = random shard content (0..14 objects, payload 0 B..300 KiB, 1..3 containers, with/without write-cache, dumped in read-only or degraded-read-only) -> Dump (in every second case a SetMode request to read-write/degraded/other read-only mode is issued from inside the dump's io.Writer at write call 0 or a random later one; awaited only if the mode lock is free) -> optional corruption of some records (undecodable head / payload byte flip) -> Restore into an empty shard through a reader mode {full, short(random<=maxChunk), onebyte, halves, dataerr}; distinct = (reader, maxChunk class, src wc, dst wc, mode change target + at-magic/later, ignoreErrors, #undecodable>0, #flipped>0, size-class set); non-trivial = at least one object")
+	r.SetRule("case = random shard content (0..14 objects, payload 0 B..300 KiB, 1..3 containers, with/without write-cache, dumped in read-only or degraded-read-only) -> Dump (in every second case a SetMode request to read-write/degraded/other read-only mode is issued from inside the dump's io.Writer at write call 0 or a random later one; awaited only if the mode lock is free) -> optional corruption of some records (undecodable head / payload byte flip) -> Restore into an empty shard through a reader mode {full, short(random<=maxChunk), onebyte, halves, dataerr} -> second Restore of the same stream into another empty shard from a source that delivers a prefix (same chunking) and then fails with a sticky non-EOF read error {at a record boundary with records left, inside a body, inside a size prefix, inside the magic, at the end}, the place rotating with the case index; distinct = (reader, maxChunk class, src wc, dst wc, mode change target + at-magic/later, ignoreErrors, #undecodable>0, #flipped>0, size-class set); non-trivial = at least one object")
 	r.Assume("the neofs-sdk-go object codec is the trusted decoder used by the reference dump parser")
 	r.Assume("dump framing as documented in shard/dump.go: magic NEOF followed by (u32 little-endian size, body) records")
 
@@ -800,6 +846,8 @@ func TestVerif_C46(t *testing.T) {
 			}
 			if out == nil {
 				r.Count("cases_agree", 1)
+				// ---- the same stream once more, from a source that breaks ----
+				vf46FaultStage(r, &c, filepath.Join(dir, "flt"), stream, bodies, recs)
 				return
 			}
 			if c.Reader == "full" {
@@ -827,9 +875,95 @@ func TestVerif_C46(t *testing.T) {
 	if r.Counter("reader_short_returns") == 0 {
 		r.Inconclusive("no short read was ever delivered to Restore")
 	}
+	if r.Counter("source_failures_at_record_boundary_with_records_left") == 0 {
+		r.Inconclusive("no restore ever met a source that failed between two records of the dump")
+	}
 	if r.Counter("mode_change_before_wc_iteration_with_unflushed_objects") == 0 {
 		r.Inconclusive("no mode change request ever met a dump of a shard whose write-cache still held objects")
 	}
+}
+
+// vf46FaultStage restores the stream of the case a second time into a fresh shard, now from a
+// source that delivers only a prefix (chunked by the case's reader mode) and then fails with
+// a real, sticky, non-EOF read error: a dump streamed over a connection that is reset, a pipe
+// whose writer aborts (a streaming Dump that fails stops exactly between two records because
+// it writes whole records), a medium with a bad sector.  Where the source breaks rotates with
+// the case index so that every reader mode meets every place at every seed:
+//
+//	record-boundary  right after the magic or after a complete record, further records follow
+//	record-body      inside the body of a record (possibly 0 bytes into it)
+//	size-prefix      1..3 bytes into a size field
+//	magic            inside the magic
+//	end-of-stream    after the last byte (the source reports the error instead of io.EOF)
+//
+// Oracle: see vf46Restore - an error return is accepted, a nil return is held to "the shard now
+// holds exactly the decodable records of the dump"; whatever is stored must be records of the
+// stream with identical bytes.
+func vf46FaultStage(r *verifkit.Run, c *vf46Case, dir string, stream []byte, bodies map[int]int, recs []vf46Record) {
+	frng := r.Rand("fault", c.Idx)
+	bounds := []int{4} // bounds[k] = offset right after k complete records
+	for _, rc := range recs {
+		bounds = append(bounds, bounds[len(bounds)-1]+4+len(rc.body))
+	}
+	n := len(recs)
+	kind, off, done := "end-of-stream", len(stream), n
+	slot := (c.Idx / len(vf46ReaderModes)) % 4
+	switch {
+	case n == 0 && slot == 3:
+		kind, off, done = "magic", frng.IntN(4), 0
+	case n == 0:
+	case slot == 0 || slot == 2:
+		if frng.IntN(8) != 0 { // else: end of stream
+			done = frng.IntN(n)
+			if c.Idx%3 == 0 && frng.IntN(2) == 0 {
+				done = 0 // right after the magic
+			}
+			kind, off = "record-boundary", bounds[done]
+		}
+	case slot == 1:
+		done = frng.IntN(n)
+		kind, off = "record-body", bounds[done]+4+frng.IntN(len(recs[done].body)+1)
+		if off == bounds[done+1] {
+			off-- // keep at least the last body byte undelivered
+		}
+	default:
+		switch frng.IntN(3) {
+		case 0:
+			done = frng.IntN(n)
+			kind, off = "size-prefix", bounds[done]+1+frng.IntN(3)
+		case 1:
+			kind, off, done = "magic", frng.IntN(4), 0
+		}
+	}
+	c.FaultKind, c.FaultOffset, c.FaultRecsDone = kind, off, done
+	c.FaultWithData = off > 0 && frng.IntN(3) == 0
+	frd := &vf46Reader{data: stream, mode: c.Reader, rng: r.Rand("fault-reader", c.Idx), maxChk: c.MaxChunk, bodies: bodies,
+		failOn: true, failAt: off, failWithData: c.FaultWithData}
+	fout, herr := vf46Restore(r, dir, frng, c.DstWC, stream, recs, frd, c.IgnoreErrors, *c)
+	if herr != nil {
+		r.Inconclusive(fmt.Sprintf("case %d (failing source): %v", c.Idx, herr))
+		return
+	}
+	r.Count("source_failure_restores", 1)
+	if frd.faults > 0 {
+		r.Seen("source_failures_delivered_at", kind)
+		if kind == "record-boundary" {
+			r.Count("source_failures_at_record_boundary_with_records_left", 1)
+		}
+	} else {
+		r.Count("source_failure_not_reached", 1) // Restore stopped reading earlier (reported record)
+	}
+	if fout == nil {
+		r.Count("source_failure_cases_agree", 1)
+		return
+	}
+	where := fmt.Sprintf("source delivered %d of %d stream bytes (%d of %d records complete) and then failed with a non-EOF error at %s", off, len(stream), done, n, kind)
+	if frd.faults > 0 && fout.rerr == nil && fout.symptom != "panic" {
+		r.Violation("restore|source-failure-reported-as-success|at="+kind,
+			fmt.Sprintf("%s, yet Restore returned nil error: %s", where, fout.what), *c)
+		return
+	}
+	r.Violation(fmt.Sprintf("restore|%s|source-failure-at=%s", fout.symptom, kind), where+": "+fout.what, *c)
 }
 
 // vf46CountBlobFiles counts the object files below an FSTree root (evidence counters only).
